@@ -111,7 +111,8 @@ func (a asm12) Assemble(n gopacket.Flow, t *layers.TCP, ts time.Time) {
 func (a asm12) FlushT(t time.Time) (int, int) {
 	return a.a.FlushWithOptions(tcpassembly.FlushOptions{T: t})
 }
-func (a asm12) FlushAll() int { return a.a.FlushAll() }
+func (a asm12) FlushAll() int                     { return a.a.FlushAll() }
+func (a asm12) FlushClose(t time.Time) (int, int) { return a.a.FlushOlderThan(t) }
 
 func c12pkg() *tcpsim.C12Pkg {
 	var pool *tcpassembly.StreamPool
